@@ -285,10 +285,18 @@ func expectedHookCalls(ts []*lib.Term, entry string, verbs []int) []lib.CallRec 
 
 // judgeC17: with a hook installed, exactly the error operands named by the statement go to the hook.
 func judgeC17(rep *lib.Report, c *lib.Ctx, ln *printerLine, res *realResult, hook string, kase json.RawMessage) {
-	if hook == "none" || res.Panicked {
+	if hook == "none" {
 		return
 	}
 	desc := caseString(c, ln.C)
+	if res.Panicked {
+		// "a panic in the hook is contained like any other method panic": only a panic raised while printing the
+		// panic payload may reach the caller
+		if !payloadPanics(ln.C.Ts) {
+			rep.Violate("hook:panic-escaped", fmt.Sprintf("%s: panic %s reached the caller", desc, res.PanicVal), kase)
+		}
+		return
+	}
 	// the verbs applied to the operands, in order (slice formats: one directive per operand)
 	var verbs []int
 	if ln.C.E == "Sprint" {
